@@ -164,6 +164,86 @@ func errBranchOfCall(f *fg.File, fn *ast.FuncDecl, recvText, method string) *ast
 	return out
 }
 
+// ioPhase describes one storage call site family inside a stream* function: how many times
+// <recv>.<method> is called (attempts; a call inside a loop is a shape we do not model), the
+// top-level `if err != nil { return <err> }` that reports its failure, and whether a
+// Truncate + Seek of the temp file happens between the first and the last attempt.
+type ioPhase struct {
+	attempts int
+	resets   bool
+	branch   *ast.IfStmt
+}
+
+func findIOPhase(f *fg.File, fn *ast.FuncDecl, recvText, method string) (*ioPhase, error) {
+	var calls []*ast.CallExpr
+	inLoop := false
+	var walk func(n ast.Node, loop bool)
+	walk = func(n ast.Node, loop bool) {
+		ast.Inspect(n, func(m ast.Node) bool {
+			switch x := m.(type) {
+			case *ast.ForStmt:
+				if m != n {
+					walk(x.Body, true)
+					return false
+				}
+			case *ast.RangeStmt:
+				if m != n {
+					walk(x.Body, true)
+					return false
+				}
+			case *ast.CallExpr:
+				if fg.CalleeName(x) == method && strings.Contains(f.Text(x.Fun), recvText) {
+					calls = append(calls, x)
+					if loop {
+						inLoop = true
+					}
+				}
+			}
+			return true
+		})
+	}
+	walk(fn.Body, false)
+	if len(calls) == 0 {
+		return nil, fmt.Errorf("%s: no %s.%s call", fn.Name.Name, recvText, method)
+	}
+	if inLoop {
+		return nil, fmt.Errorf("%s: %s.%s is called inside a loop (retry loops are not modelled)", fn.Name.Name, recvText, method)
+	}
+	ph := &ioPhase{attempts: len(calls)}
+	first, last := calls[0], calls[len(calls)-1]
+	trunc, seek := false, false
+	ast.Inspect(fn.Body, func(m ast.Node) bool {
+		if c, ok := m.(*ast.CallExpr); ok && c.Pos() > first.End() && c.End() < last.Pos() {
+			switch fg.CalleeName(c) {
+			case "Truncate":
+				trunc = true
+			case "Seek":
+				seek = true
+			}
+		}
+		return true
+	})
+	ph.resets = trunc && seek
+	// the failure report: first top-level `if [init;] err != nil { …; return <err> }` at or after the first call
+	for _, st := range fn.Body.List {
+		ifs, ok := st.(*ast.IfStmt)
+		if !ok || ifs.End() < first.Pos() || !isErrNotNil(ifs.Cond) || ifs.Else != nil {
+			continue
+		}
+		if ifs.Pos() > last.End() || (ifs.Init != nil && ifs.Init.Pos() <= last.Pos() && last.End() <= ifs.Init.End()) {
+			if len(ifs.Body.List) > 0 && returnsError(ifs.Body.List[len(ifs.Body.List)-1]) {
+				ph.branch = ifs
+				break
+			}
+			return nil, fmt.Errorf("%s: a %s.%s error is not returned", fn.Name.Name, recvText, method)
+		}
+	}
+	if ph.branch == nil {
+		return nil, fmt.Errorf("%s: no `if err != nil { return <err> }` after %s.%s", fn.Name.Name, recvText, method)
+	}
+	return ph, nil
+}
+
 func mentions(f *fg.File, n ast.Node, ident string) bool {
 	found := false
 	ast.Inspect(n, func(m ast.Node) bool {
@@ -388,16 +468,18 @@ func c13(repo string, out *fg.Out) error {
 	if err != nil {
 		return err
 	}
-	rRead := errBranchOfCall(srf, sr, "backupStorage", "ReadTo")
-	rWrite := errBranchOfCall(srf, sr, "dataStorage", "WriteReader")
-	if rRead == nil || rWrite == nil {
-		return fmt.Errorf("streamRestoreFile: backupStorage.ReadTo / dataStorage.WriteReader error branches not found")
+	rReadPh, err := findIOPhase(srf, sr, "backupStorage", "ReadTo")
+	if err != nil {
+		return err
 	}
-	for _, b := range []*ast.IfStmt{rRead, rWrite} {
-		if len(b.Body.List) == 0 || !returnsError(b.Body.List[len(b.Body.List)-1]) {
-			return fmt.Errorf("streamRestoreFile: a storage error is not returned")
-		}
+	rWritePh, err := findIOPhase(srf, sr, "dataStorage", "WriteReader")
+	if err != nil {
+		return err
 	}
+	if rWritePh.branch.Pos() < rReadPh.branch.End() {
+		return fmt.Errorf("streamRestoreFile: write before read?")
+	}
+	rWrite := rWritePh.branch
 	restoreCleans := len(fg.CallsNamed(rWrite.Body, "cleanupPartialWrite"))+len(fg.CallsNamed(rWrite.Body, "Delete")) > 0
 
 	// ---------------------------------------------------------------- backup side
@@ -459,16 +541,18 @@ func c13(repo string, out *fg.Out) error {
 	if err != nil {
 		return err
 	}
-	bRead := errBranchOfCall(sbfF, sbf, "dataStorage", "ReadTo")
-	bWrite := errBranchOfCall(sbfF, sbf, "backupStorage", "WriteReader")
-	if bRead == nil || bWrite == nil {
-		return fmt.Errorf("streamBackupFile: dataStorage.ReadTo / backupStorage.WriteReader error branches not found")
+	bReadPh, err := findIOPhase(sbfF, sbf, "dataStorage", "ReadTo")
+	if err != nil {
+		return err
 	}
-	for _, b := range []*ast.IfStmt{bRead, bWrite} {
-		if len(b.Body.List) == 0 || !returnsError(b.Body.List[len(b.Body.List)-1]) {
-			return fmt.Errorf("streamBackupFile: a storage error is not returned")
-		}
+	bWritePh, err := findIOPhase(sbfF, sbf, "backupStorage", "WriteReader")
+	if err != nil {
+		return err
 	}
+	if bWritePh.branch.Pos() < bReadPh.branch.End() {
+		return fmt.Errorf("streamBackupFile: write before read?")
+	}
+	bRead, bWrite := bReadPh.branch, bWritePh.branch
 	readIsSrc := mentions(nil, bRead.Body, "errBackupRead")
 	writeIsSrc := mentions(nil, bWrite.Body, "errBackupRead")
 	backupCleans := len(fg.CallsNamed(bWrite.Body, "cleanupPartialWrite"))+len(fg.CallsNamed(bWrite.Body, "Delete")) > 0
@@ -652,6 +736,13 @@ func c13(repo string, out *fg.Out) error {
 	fmt.Fprintf(w, "def restoreFileErr : Nat := %d\n", restorePol)
 	fmt.Fprintf(w, "def backupCleansPart : Bool := %v\n", backupCleans)
 	fmt.Fprintf(w, "def restoreCleansPart : Bool := %v\n", restoreCleans)
+	fmt.Fprintf(w, "/-- per-file I/O attempts (1 = no retry) and whether a read retry truncates+rewinds the temp file -/\n")
+	fmt.Fprintf(w, "def backupReadAttempts : Nat := %d\n", bReadPh.attempts)
+	fmt.Fprintf(w, "def backupRetryResets : Bool := %v\n", bReadPh.resets)
+	fmt.Fprintf(w, "def backupWriteAttempts : Nat := %d\n", bWritePh.attempts)
+	fmt.Fprintf(w, "def restoreReadAttempts : Nat := %d\n", rReadPh.attempts)
+	fmt.Fprintf(w, "def restoreRetryResets : Bool := %v\n", rReadPh.resets)
+	fmt.Fprintf(w, "def restoreWriteAttempts : Nat := %d\n", rWritePh.attempts)
 	fmt.Fprintf(w, "def ratioNum : Nat := %d\n", rat.Num().Int64())
 	fmt.Fprintf(w, "def ratioDen : Nat := %d\n", rat.Denom().Int64())
 	fmt.Fprintf(w, "def ratioChecked : Bool := %v\n", ratioChecked)
@@ -676,6 +767,8 @@ func c13(repo string, out *fg.Out) error {
 	out.JSON["manifest_skipped_before_marshal"] = manifestSkipped
 	out.JSON["read_err_is_source_read"] = readIsSrc
 	out.JSON["write_err_is_source_read"] = writeIsSrc
+	out.JSON["io_attempts"] = map[string]any{"backup_read": bReadPh.attempts, "backup_read_retry_resets": bReadPh.resets, "backup_write": bWritePh.attempts,
+		"restore_read": rReadPh.attempts, "restore_read_retry_resets": rReadPh.resets, "restore_write": rWritePh.attempts}
 	out.JSON["restore_program"] = prog
 	out.JSON["parquet_suffix"] = parquetSuffix
 	out.JSON["metadata_seg"] = metaSeg
